@@ -17,10 +17,18 @@ type PropSpec struct {
 var properties = map[string]PropSpec{
 	"C08": {
 		Level: "other",
-		Explanation: "wip",
+		Explanation: "The panic-site census of the whole package, for every argument value. R-BND: every index, slice and string-index expression (about 110 non-trivial sites) is proved in range on every path by linear entailment (Fourier-Motzkin) from the path's branch facts; user integers are unconstrained 64-bit values and a sum/difference/product is related to its operands only when the facts prove it cannot overflow (so MinInt/MaxInt are covered); loop counters get inductive bounds; helper functions returning lengths are inlined by return case; preconditions of unexported workers are checked at every call site and exported entry points may have none; element writes and user-element reads on a stack need index >= 1, so the configuration slot can never be written or returned through an index. R-NIL / R-REFL / R-CANIF: every nil-dereference and every panicking reflect.Value call is discharged likewise (typed nil pointers of any depth, zero Stacks/Conditions, zero reflect.Values, unexported struct fields). R-TA: every unchecked type assertion is dominated by the matching type test. R-DIV: no division by a possibly-zero integer. No explicit panic and no goroutine exist (R-BASE).",
+		NotDecided: "that -k addresses exactly the k-th element from the end is decided only as the linear identity proved for factorNegIndex's result range; 'a failed call leaves content as it was' is decided as: no write is reachable with an out-of-range index (the same obligations); panics inside user closures/String() methods and the Go runtime are excluded. One site is assumed (Defrag's truncation index, see assumptions).",
 		Run: func(c *Ctx) {
+			c.ruleNoUnsafe()
 			c.ruleInv()
+			c.ruleCensus(nil, map[string]bool{"R-NIL": true, "R-REFL": true, "R-TA": true, "R-DIV": true})
+			c.ruleCanif()
 			c.ruleCensus(nil, map[string]bool{"R-BND": true})
+			c.rep.floor("R-BND", 100)
+			c.rep.floor("R-NIL", 1300)
+			c.rep.floor("R-REFL", 30)
+			c.rep.floor("R-TA", 2)
 		},
 	},
 	"C06": {
